@@ -5,6 +5,12 @@ package main
 
 import (
 	"bytes"
+	"runtime/debug"
+	"com.tuntun.rangers/node/src/executor"
+	"com.tuntun.rangers/node/src/vm"
+	"com.tuntun.rangers/node/src/core"
+	"com.tuntun.rangers/node/src/middleware/notify"
+	"com.tuntun.rangers/node/src/network"
 	"go/ast"
 	"go/parser"
 	"go/token"
@@ -34,14 +40,23 @@ import (
 var height uint64 = 100
 
 // setHeight: the height handed to VerifyTransaction and the chain id the configuration gives it
+// The chain id in force is computed HERE from the configuration (independent oracle, same rule as the Coq
+// model's chain_id_at): OriginalChainId below Proposal001Block, ChainId from it on.  common.ChainId /
+// common.GetChainId are what the implementation uses; they are never consulted for expectations.
 func setHeight(h uint64) {
 	height = h
-	chainStr = common.ChainId(h)
-	chainBig = common.GetChainId(h)
-	if chainBig == nil || chainBig.String() != chainStr {
+	cfg := common.LocalChainConfig
+	chainStr = cfg.OriginalChainId
+	if h >= cfg.Proposal001Block {
+		chainStr = cfg.ChainId
+	}
+	var ok bool
+	chainBig, ok = new(big.Int).SetString(chainStr, 10)
+	if !ok || chainBig.String() != chainStr {
 		fmt.Println("chain id configuration is not a decimal number:", chainStr)
 		os.Exit(2)
 	}
+	common.SetBlockHeight(h) // the height the peer-push handler reads
 }
 
 var (
@@ -1208,6 +1223,150 @@ func astTie() {
 	}
 }
 
+// ---------- admission: every path by which a transaction reaches the pool ----------
+// GameExecutor.runWrite (gateway / JSON-RPC queue, both branches), GameExecutor.write (ClientTransactionWrite
+// subscription) and the peer push handler (WorkerConn.handleMessage, TransactionGotMsg) are driven with the
+// mutants of a base transaction first and the honest base last, under varying message envelopes.
+// Predicate: a hash that was not in the pool before the call and is in it afterwards belongs to a
+// transaction that is authentic by the independent conjunct check for the chain id in force.
+type envelope struct {
+	UserId    string `json:"UserId"`
+	Nonce     uint64 `json:"Nonce"`
+	GateNonce uint64 `json:"GateNonce"`
+}
+
+var entryPoints = []string{"runWrite", "write", "peer-push"}
+
+func offer(ep string, env envelope, tx *types.Transaction) (ok bool, pmsg string) {
+	defer func() {
+		if p := recover(); p != nil {
+			ok, pmsg = false, fmt.Sprint(p)+" @ "+string(debug.Stack())
+		}
+	}()
+	t := *clone(tx)
+	t.SubTransactions = []types.UserData{{Address: env.GateNonce}}
+	switch ep {
+	case "runWrite":
+		core.VerifC07RunWrite(&notify.ClientTransactionMessage{Tx: t, UserId: env.UserId, Nonce: env.Nonce, GateNonce: env.GateNonce})
+	case "write":
+		core.VerifC07Write(&notify.ClientTransactionMessage{Tx: t, UserId: env.UserId, Nonce: env.Nonce, GateNonce: env.GateNonce})
+	case "peer-push":
+		body, err := types.MarshalTransactions([]*types.Transaction{&t})
+		if err != nil {
+			return false, ""
+		}
+		if err := network.VerifC07HandleWorkerMessage(network.VerifC07TransactionGotMsg, body, "1"); err != nil {
+			return false, ""
+		}
+	}
+	return true, ""
+}
+
+func authentic(tx *types.Transaction) string {
+	if tx.Type == types.TransactionTypeETHTX {
+		return ethConjuncts(tx)
+	}
+	return nativeConjuncts(tx)
+}
+
+func admissionPhase(r *hx.Rng, n int) {
+	state, err := middleware.AccountDBManagerInstance.GetAccountDBByHash(common.Hash{})
+	if err != nil {
+		res.Violate("C07/admission:setup", "no state for the game executor: "+err.Error(), nil)
+		return
+	}
+	saved := common.LocalChainConfig
+	defer func() { common.LocalChainConfig = saved; setHeight(100) }()
+	at := func(h uint64) {
+		setHeight(h)
+		middleware.AccountDBManagerInstance.SetLatestStateDB(state, make(map[string]uint64), h) // the height runWrite reads
+	}
+	skip := map[string]bool{"sign:v-alias": true, "eth-chain:homestead-v27-28": true} // accepted by VerifyTransaction: known findings, reported there
+	admitted, refused, masked := 0, 0, 0
+	try := func(ep string, env envelope, class string, tx *types.Transaction, honest bool) {
+		before := pool.IsExisted(tx.Hash)
+		ok, pmsg := offer(ep, env, tx)
+		in := map[string]interface{}{"entry_point": ep, "envelope": env, "height": height, "chain_id_in_force": chainStr, "class": class, "tx": jsonTx(tx)}
+		if pmsg != "" {
+			res.Violate("C07/admission:"+ep+":panic", "entry point panicked: "+pmsg, in)
+			return
+		}
+		if !ok {
+			return
+		}
+		after := pool.IsExisted(tx.Hash)
+		switch {
+		case before:
+			masked++
+			res.Count("admission-"+ep+"/hash-already-pooled:"+class, "", false)
+		case after:
+			admitted++
+			res.Count("admission-"+ep+"/admitted", ep+string(tx.Hash.Bytes()), true)
+			if bad := authentic(tx); bad != "" {
+				res.Violate("C07/admission:"+ep+":unauthentic-admitted", fmt.Sprintf("transaction failing the conjunct '%s' is in the pool after %s (class %s, envelope %+v)", bad, ep, class, env), in)
+			}
+		default:
+			refused++
+			res.Count("admission-"+ep+"/refused", ep+string(tx.Hash.Bytes()), true)
+			if honest {
+				res.Violate("C07/admission:"+ep+":honest-not-admitted", fmt.Sprintf("honest transaction is not in the pool after %s (envelope %+v)", ep, env), in)
+			}
+		}
+	}
+	for i := 0; i < n; i++ {
+		ep := entryPoints[i%len(entryPoints)]
+		fork := (i/len(entryPoints))%2 == 1
+		if fork {
+			common.LocalChainConfig.ChainId, common.LocalChainConfig.OriginalChainId, common.LocalChainConfig.Proposal001Block = "2025", "8888", 1000
+			at([]uint64{0, 999, 1000, 5000}[r.Intn(4)])
+		} else {
+			common.LocalChainConfig = saved
+			at(100)
+		}
+		envOf := func() envelope {
+			e := envelope{Nonce: uint64(r.Intn(2) * (1 + r.Intn(9))), GateNonce: uint64(r.Intn(2) * (1 + r.Intn(9)))}
+			if r.Bool() {
+				e.UserId = "user-" + strconv.Itoa(r.Intn(100))
+			}
+			return e
+		}
+		var base *types.Transaction
+		var ms []mutant
+		if i%2 == 0 {
+			b, sk := genNative(r)
+			if r.Bool() { // a type that takes the second branch of runWrite (Type != 0)
+				b.Type = []int32{2, 3, 100, 200, 600}[r.Intn(5)]
+				signNative(b, sk)
+			}
+			base, ms = b, nativeMutants(r, b, sk, false)
+		} else {
+			b := genEth(r)
+			base, ms = b.wrap, ethMutants(r, b, false)
+		}
+		if fork { // the same kind of transaction made for the other side of the fork is a mutant here
+			other := map[string]string{"8888": "2025", "2025": "8888"}[chainStr]
+			ob, _ := new(big.Int).SetString(other, 10)
+			if base.Type == types.TransactionTypeETHTX {
+				_, k, _ := genKey(r)
+				ms = append(ms, mutant{"fork:eth-for-other-side", "", signEth(nil, genEth(r).raw, k, ob).wrap})
+			} else {
+				keep := chainStr
+				chainStr = other
+				t, _ := genNative(r)
+				chainStr = keep
+				ms = append(ms, mutant{"fork:native-for-other-side", "", t})
+			}
+		}
+		for _, m := range ms {
+			if !skip[m.class] {
+				try(ep, envOf(), m.class, m.tx, false)
+			}
+		}
+		try(ep, envOf(), "honest", base, true)
+	}
+	res.Note(fmt.Sprintf("admission phase: %d bases through %v (mutants first, honest base last): %d admitted, %d refused, %d offers skipped because the hash was already pooled", n, entryPoints, admitted, refused, masked))
+}
+
 // ---------- completeness stream: many distinct honest signatures ----------
 // Honest transactions must be accepted whatever their signature values look like.  A few keys sign
 // thousands of distinct transactions (implementation only); signatures whose r or s has leading zero
@@ -1450,6 +1609,8 @@ func main() {
 	common.SetBlockHeight(height)
 	middleware.InitMiddleware()
 	service.InitService()
+	vm.InitVM()
+	executor.InitExecutors()
 	pool = service.GetTransactionPool()
 	if pool == nil {
 		fmt.Println("no transaction pool")
@@ -1610,6 +1771,7 @@ func main() {
 	}
 	res.Note(fmt.Sprintf("two-field boundary shifts (same preimage, same hash and signature, different declared fields; outside the property's single-field quantifier): %d of %d accepted", shiftAccepted, shiftTotal))
 	res.Note("chain id " + chainStr + " at height " + strconv.FormatUint(height, 10))
+	admissionPhase(r, a.N/3+6)
 	completenessStream(r, thorough, eval)
 	recheck("after other transactions") // flush before the configuration changes
 	forkPhase(r, a.N/3+6, eval, recheck)
